@@ -44,6 +44,9 @@ T = {
  "C16": ("TLC model of coupling stacks on the lattice (Gen_Pgram, one Couple action per layer, exact reduced vector and link poses) replayed into Parallelogram + Solver trace events through random couplings",
          "Every lattice-exact coupling (30 joint pairs x 6 scalings) is generated by TLC with the exact inner link poses at the reduced vector; forward, link poses and the round trip of all four inverse entry points are replayed; stacked couplings compose (depth 2 in the thorough tier); random real scalings are judged by the TLA+ clause Coupled.",
          "Exactness on the lattice needs driven angles that are multiples of 90 degrees; other driven angles are covered by the random-real trace events.", "4/C16"),
+ "C15": ("TLC-computed exact geometric Jacobian columns on the lattice (Gen_Jacobian, on top of the Gen_Chain model) replayed into Jacobian::new + trace validation of random robots/stacks (Trace_Jacobian)",
+         "Axis x lever and axis of every joint are computed exactly by TLC from the link poses of the chain model for all lattice chains with up to three generic joints; the code's finite-difference matrix is compared column by column for three step sizes; torques, velocities and the isometry/vector entry points are judged by the trace spec from oracle facts.",
+         "The matrix field is private and is observed through torques_from_vector(unit vectors); tolerance 20*eps*(1+reach).", "4/C15"),
 }
 
 REASON_TODO = "check not built yet in this round (planned, see DESIGN.md section 9); not claimed until it runs"
